@@ -145,3 +145,26 @@ Proof.
   generalize acc0 as a. induction (fm_entities m) as [|e l IH]; intros a; cbn [map combine fold_left]; [reflexivity|].
   rewrite entity_step_norm. apply IH.
 Qed.
+
+(* ================= the characters of the NYCT trip id: every character consumes between one and four bytes, never more than there are ================= *)
+Lemma rune_len_bounds a r : (1 <= rune_len (a :: r) <= 4)%nat /\ (rune_len (a :: r) <= List.length (a :: r))%nat.
+Proof.
+  unfold rune_len. cbn [List.length].
+  destruct (bval a <? 128); [split; lia|].
+  destruct (in_range 194 223 a).
+  { destruct r as [|b r]; [split; lia|]. destruct (cont b); cbn [List.length]; split; lia. }
+  destruct (in_range 224 239 a).
+  { destruct r as [|b [|d r]]; cbn [List.length]; try (split; lia).
+    destruct ((if bval a =? 224 then in_range 160 191 b else if bval a =? 237 then in_range 128 159 b else cont b) && cont d); split; lia. }
+  destruct (in_range 240 244 a).
+  { destruct r as [|b [|d [|e r]]]; cbn [List.length]; try (split; lia).
+    destruct ((if bval a =? 240 then in_range 144 191 b else if bval a =? 244 then in_range 128 143 b else cont b) && cont d && cont e); split; lia. }
+  split; lia.
+Qed.
+Lemma drop_char_shorter l r : drop_char l = Some r -> (List.length r < List.length l)%nat /\ (List.length l <= List.length r + 4)%nat.
+Proof.
+  unfold drop_char. destruct l as [|a l0]; [discriminate|]. destruct (not_nl a); [|discriminate]. intros E.
+  assert (R : r = skipn (rune_len (a :: l0)) (a :: l0)) by (injection E as <-; reflexivity). rewrite R. clear E R.
+  destruct (rune_len_bounds a l0) as [[B1 B2] B3]. rewrite skipn_length.
+  remember (rune_len (a :: l0)) as n. remember (List.length (a :: l0)) as k. clear - B1 B2 B3. lia.
+Qed.
